@@ -77,6 +77,15 @@ class FdTable(EngineBase):
                             "io": plan["io"]}],
                  "files": plan["files"], "io_extra": plan["io_extra"],
                  "listdir_order": plan["order"], "max_acc": 40000}
+        if plan.get("forked"):
+            # the program imported psutil, fork()ed and goes on in the child
+            # (another PID, a descriptor table of its own): the target is its
+            # parent, the process that was "self" when psutil was imported
+            from ..kernel import SELF_PID_DEFAULT
+            T = SELF_PID_DEFAULT
+            world["procs"][0]["pid"] = T
+            world["self_pid"] = T + 1
+            world["self_ppid"] = T
         if plan.get("caller_cwd"):
             world["caller_cwd"] = plan["caller_cwd"]
         k = self.make_kernel(W.boot, world)
@@ -177,6 +186,8 @@ class FdTable(EngineBase):
                         else "second_call")
         if plan.get("procfs_moved"):
             tags.append("procfs_path_reassigned")
+        if plan.get("forked"):
+            tags.append("target_is_parent_after_fork")
         if changed:
             tags.append("table_changed")
         if not alive:
@@ -296,6 +307,11 @@ class FdTable(EngineBase):
                 continue
             n = dry.get("nacc", 0)
             fdnums0 = [fd for fd, _ in world["fds"]]
+            if rng.random() < 0.3:
+                fp = dict(base, forked=True)
+                r = W.execute_forked(fp)
+                u["evals"] += 1
+                self._absorb(u, fp, r, ("forked", subject))
             if rng.random() < 0.5:
                 mp = dict(base, procfs_moved=rng.choice(
                     ["/host/proc", "/mnt/proc2", "/proc/1/root/proc"]))
